@@ -262,6 +262,36 @@ impl Stats {
         }
     }
 
+    pub fn absorb_b(&mut self, plan: &Plan, bh: &crate::runb::BHistory) {
+        // reuse the world-A accounting over the raw stream
+        let h = History {
+            events: bh.raw.clone(),
+            event_poll: Vec::new(),
+            quiescent: Vec::new(),
+            cb: bh.cb.clone(),
+            parser: bh.parser.clone(),
+            end: if bh.end == RunEnd::Panicked && bh.panic_msg.as_deref().is_some_and(|m| m.contains("failed") || m.contains("error")) { RunEnd::Finished } else { bh.end },
+            stream_ended: true,
+            items_after_finished: 0,
+            escaped_panic: None,
+            hook_count_during: 0,
+            hook_restored: true,
+            stats: bh.stats.clone(),
+            probes: BTreeMap::new(),
+            sched_digest: bh.sched_digest,
+            sched_trace: Vec::new(),
+            max_in_callbacks: 0,
+        };
+        self.absorb_history(plan, &h);
+        self.bump("sink_short_write", bh.short_writes);
+        self.bump("sink_interrupted", bh.interrupts);
+        self.bump(&format!("stack:{}", bh.stack), 1);
+        if bh.panic_msg.is_some() {
+            self.bump("run_and_exit_panicked", 1);
+        }
+        self.states.insert(format!("stack={} failed={:?}", bh.stack, bh.probe.has_failed));
+    }
+
     pub fn merge(&mut self, o: Stats) {
         self.runs += o.runs;
         for (k, v) in o.ends {
@@ -306,6 +336,7 @@ pub struct Executed {
     pub violations: Vec<Violation>,
     pub history: Option<History>,
     pub chistory: Option<crate::worldc::CHistory>,
+    pub bhistory: Option<crate::runb::BHistory>,
 }
 
 impl Executed {
@@ -313,7 +344,7 @@ impl Executed {
         match (&self.history, &self.chistory) {
             (Some(h), _) => h.digest(),
             (_, Some(c)) => c.digest(),
-            _ => 0,
+            _ => self.bhistory.as_ref().map_or(0, crate::runb::BHistory::digest),
         }
     }
 }
@@ -343,6 +374,31 @@ pub fn stack_name(prop: &str, plan: &Plan) -> String {
     if prop == "C13" && plan.writer.verbosity == 1 && !base.contains("tee_of_fos") { format!("x_{base}") } else { base.to_owned() }
 }
 
+/// Chooses the writer stack, reporter options and sink faults of a pipeline-world plan.
+pub fn decorate_for_world_b(_prop: &str, plan: &mut Plan) {
+    let mut r = crate::core::Rng::new(plan.seed ^ 0xB0B0);
+    plan.writer.stack = r.below(crate::runb::STACKS_B.len() as u64) as u32;
+    plan.writer.sink_seed = r.next_u64();
+    plan.writer.verbosity = r.below(3) as u8;
+    plan.writer.report_time = r.chance(1, 2);
+    plan.writer.show_output = r.chance(1, 2);
+    if r.chance(1, 2) {
+        plan.writer.short_write_pm = *r.pick(&[50u32, 300, 800]);
+        plan.writer.eintr_pm = *r.pick(&[0u32, 50, 300]);
+    }
+}
+
+/// Runs `plan` in world B and evaluates `prop`'s oracle.
+pub fn execute_b(prop: &str, plan: &Rc<Plan>) -> Result<Executed, String> {
+    let bh = crate::runb::run_world_b(plan)?;
+    let mut v = Vec::new();
+    match prop {
+        "C01" => crate::oracle_b::c01(plan, &bh, &mut v),
+        _ => return Err(format!("harness: {prop} is not a world-B property")),
+    }
+    Ok(Executed { violations: v, history: None, chistory: None, bhistory: Some(bh) })
+}
+
 /// Runs `plan` in world C and evaluates `prop`'s oracle.
 pub fn execute_c(prop: &str, plan: &Rc<Plan>) -> Result<Executed, String> {
     let which = stack_name(prop, plan);
@@ -354,7 +410,7 @@ pub fn execute_c(prop: &str, plan: &Rc<Plan>) -> Result<Executed, String> {
         "C13" => crate::worldc::c13(plan, &ch, &mut v),
         _ => return Err(format!("harness: {prop} is not a world-C property")),
     }
-    Ok(Executed { violations: v, history: None, chistory: Some(ch) })
+    Ok(Executed { violations: v, history: None, chistory: Some(ch), bhistory: None })
 }
 
 /// Runs `plan` in world A and evaluates `prop`'s oracle.
@@ -382,7 +438,7 @@ pub fn execute_a(prop: &str, plan: &Rc<Plan>) -> Result<Executed, String> {
         }
         v
     };
-    Ok(Executed { violations, history: Some(h), chistory: None })
+    Ok(Executed { violations, history: Some(h), chistory: None, bhistory: None })
 }
 
 #[derive(Clone, Debug, Serialize, Deserialize)]
@@ -463,10 +519,18 @@ pub fn make_replay(
             e.chistory.as_ref().map(|c| vec![format!("stack={} slow_writer_pendings={} shape={:?}", c.stack, c.slow_pendings, c.shape)]).unwrap_or_default()
         }),
         events: e
+            .bhistory
+            .as_ref()
+            .map(|b| b.raw.iter().map(crate::record::Ev::short).collect::<Vec<_>>())
+            .filter(|_| e.history.is_none())
+            .into_iter()
+            .next()
+            .or_else(|| None)
+            .unwrap_or_else(|| e
             .history
             .as_ref()
             .map(|h| h.events.iter().map(crate::record::Ev::short).collect())
-            .unwrap_or_else(|| e.chistory.as_ref().map(|c| c.input.iter().map(crate::record::Ev::short).collect()).unwrap_or_default()),
+            .unwrap_or_else(|| e.chistory.as_ref().map(|c| c.input.iter().map(crate::record::Ev::short).collect()).unwrap_or_default())),
         gherkin: min.features.iter().map(crate::plan::FeatureSpec::gherkin).collect(),
     })
 }
